@@ -30,8 +30,48 @@ func (m MemFS) Read(p string) ([]byte, error) {
 	return nil, fmt.Errorf("open %s: no such file", p)
 }
 
-// Abs cleans the path (all paths handed to the compiler are absolute).
-func (m MemFS) Abs(p string) (string, error) { return path.Clean(p), nil }
+// Abs cleans the path; a relative path is relative to Root (the working directory of the
+// imagined caller).
+func (m MemFS) Abs(p string) (string, error) {
+	if !path.IsAbs(p) {
+		p = path.Join(Root, p)
+	}
+	return path.Clean(p), nil
+}
+
+// OneModulePerFile walks the compiled module graph and reports a file that is represented by
+// two different Module objects (its definitions would then exist twice, and references from
+// different files would bind to different copies).
+func OneModulePerFile(root *compile.Module) error {
+	seen := map[string]*compile.Module{}
+	visited := map[*compile.Module]bool{}
+	queue := []*compile.Module{root}
+	for len(queue) > 0 {
+		m := queue[0]
+		queue = queue[1:]
+		if visited[m] {
+			continue
+		}
+		visited[m] = true
+		key := path.Clean(m.ThriftPath)
+		if !path.IsAbs(key) {
+			key = path.Join(Root, key)
+		}
+		if prev, ok := seen[key]; ok && prev != m {
+			return fmt.Errorf("%s is represented by two Module objects (recorded as %q and %q)", key, prev.ThriftPath, m.ThriftPath)
+		}
+		seen[key] = m
+		var names []string
+		for n := range m.Includes {
+			names = append(names, n)
+		}
+		sort.Strings(names)
+		for _, n := range names {
+			queue = append(queue, m.Includes[n].Module)
+		}
+	}
+	return nil
+}
 
 // FSOf renders a program into a MemFS.
 func FSOf(p *im.Program) MemFS {
